@@ -72,6 +72,9 @@ def run(chk):
             t = rng.choice([a0 * (1 + 10 ** rng.uniform(-12, 0)), 10 ** rng.uniform(math.log10(a0), 6), a0, a0 * 0.5,
                             0.0, -3.0, 1e300, float("nan")])
             cases.append(dict(feh=feh, a=[a0, a1, a2], m=m, t=t))
+        # the SAME masses and ages asked of every row in turn (one process, one model per row): each row answers with its own constants
+        for m_, t_ in ((0.05, 12000.0), (1.0, 100.0), (250.0, 3.0), (300.0, 1e6), (2.5, 13000.0)):
+            cases.append(dict(feh=feh, a=[a0, a1, a2], m=m_, t=t_))
     impl = []
     for c in cases:
         o = objs[c["feh"]]
